@@ -26,6 +26,7 @@ partial def exprOf (j : Json) : R Expr :=
         | _ => throw "bad kw") kw
       pure (.call f (← listOf exprOf args) kws)
   | .arr #[.str "sub", a, i] => do pure (.sub (← exprOf a) (← exprOf i))
+  | .arr #[.str "attr", a, .str n] => do pure (.attr (← exprOf a) n)
   | .arr #[.str "cmp", .str o, a, b] => do pure (.cmp o (← exprOf a) (← exprOf b))
   | .arr #[.str "not", a] => do pure (.lnot (← exprOf a))
   | .arr #[.str "and", cs] => do pure (.land (← listOf exprOf cs))
@@ -53,6 +54,7 @@ partial def exprJ : Expr → Json
   | .call f args kw => jarr [jstr "call", jstr f, jarr (args.map exprJ),
       jarr (kw.map fun (k, e) => jarr [jstr k, exprJ e])]
   | .sub a i => jarr [jstr "sub", exprJ a, exprJ i]
+  | .attr a n => jarr [jstr "attr", exprJ a, jstr n]
   | .cmp o a b => jarr [jstr "cmp", jstr o, exprJ a, exprJ b]
   | .lnot a => jarr [jstr "not", exprJ a]
   | .land cs => jarr [jstr "and", jarr (cs.map exprJ)]
